@@ -15,8 +15,7 @@ Tri num_eq(double a, double b) {
     if (fa != fb) return NO;
     if (a == b) return YES;
     long double d = fabsl((long double)a - (long double)b), m = fmaxl(fabsl((long double)a), fabsl((long double)b)), tol = m * (long double)DBL_EPSILON;
-    if (d == tol) return ANY;   // exactly on the boundary: not decided by the statement
-    return d < tol ? YES : NO;
+    return d <= tol ? YES : NO;   // "equal within relative DBL_EPSILON": the boundary is inside
 }
 Tri both(Tri a, Tri b) { if (a == NO || b == NO) return NO; if (a == ANY || b == ANY) return ANY; return YES; }
 Tri ref_eq(const RV& a, const RV& b, bool cs) {
@@ -53,7 +52,7 @@ struct XCompare : Engine {
     static std::vector<RV> leaves(bool reduced) {
         double e = DBL_EPSILON; std::vector<RV> l = { RV::mk(RV::Null), RV::mk(RV::True), RV::number(1), RV::number(1 + 2 * e), RV::string("s"), RV::number(INFINITY) };
         if (!reduced) { RV raw = RV::mk(RV::Raw); raw.str = "s";
-            for (auto& x : std::vector<RV>{ RV::mk(RV::False), RV::number(0), RV::number(nextafter(1.0, 2.0)), RV::number(1e300), RV::number(nextafter(1e300, INFINITY)), RV::number(0x1.8p-1022), RV::number(0x1.8p-1022 + 2 * 0x1p-1074), RV::number(5e-324), RV::number(NAN), RV::number(-1), RV::number(3.0), RV::number(nextafter(3.0, 0.0)), RV::string("t"), RV::string(""), raw }) l.push_back(x); }
+            for (auto& x : std::vector<RV>{ RV::mk(RV::False), RV::number(0), RV::number(nextafter(1.0, 2.0)), RV::number(1e300), RV::number(nextafter(1e300, INFINITY)), RV::number(0x1.8p-1022), RV::number(0x1.8p-1022 + 2 * 0x1p-1074), RV::number(5e-324), RV::number(NAN), RV::number(-1), RV::number(3.0), RV::number(nextafter(3.0, 0.0)), RV::number(-(1.0 - DBL_EPSILON)), RV::string("t"), RV::string(""), raw }) l.push_back(x); }
         return l;
     }
     void build(const std::string& stage) {
